@@ -25,6 +25,9 @@ template<size_t N> static V dummy_nu(sqf::runtime::runtime&) { return std::make_
 template<size_t... I> static std::array<sqf::runtime::sqfop_binary::callback, sizeof...(I)> mk_bin(std::index_sequence<I...>) { return { &dummy_bin<I>... }; }
 template<size_t... I> static std::array<sqf::runtime::sqfop_unary::callback, sizeof...(I)> mk_un(std::index_sequence<I...>) { return { &dummy_un<I>... }; }
 template<size_t... I> static std::array<sqf::runtime::sqfop_nular::callback, sizeof...(I)> mk_nu(std::index_sequence<I...>) { return { &dummy_nu<I>... }; }
+// operators without a result: the VM's nil takes the operand's place
+static V dummy_un_void(sqf::runtime::runtime&, V::cref) { return {}; }
+static V dummy_nu_void(sqf::runtime::runtime&) { return {}; }
 static auto g_bin = mk_bin(std::make_index_sequence<dummy_slots>());
 static auto g_un = mk_un(std::make_index_sequence<dummy_slots>());
 static auto g_nu = mk_nu(std::make_index_sequence<dummy_slots>());
@@ -71,6 +74,8 @@ static void cmd_asm(const J& c)
             g_dummy_names[slot] = name;
             if (cls == "b") { rt.register_sqfop(sqf::runtime::sqfop::binary((short)d.num("prec"), name, sqf::types::t_any(), sqf::types::t_any(), "DUMMY", g_bin[slot])); }
             else if (cls == "u") { rt.register_sqfop(sqf::runtime::sqfop::unary(name, sqf::types::t_any(), "DUMMY", g_un[slot])); }
+            else if (cls == "uv") { rt.register_sqfop(sqf::runtime::sqfop::unary(name, sqf::types::t_any(), "DUMMY", dummy_un_void)); }
+            else if (cls == "nv") { rt.register_sqfop(sqf::runtime::sqfop::nular(name, "DUMMY", dummy_nu_void)); }
             else if (cls == "n") { rt.register_sqfop(sqf::runtime::sqfop::nular(name, "DUMMY", g_nu[slot])); }
             slot++;
         }
